@@ -33,8 +33,9 @@
   * `Option::inspect(|_| { self.f = ..; })` inside a `&mut self` method: the closure is a state transformer of
     `self`, run when the option is `Some`; `&mut self` methods yield (value, self after).
 
-  Every definition is an `abbrev` (see the note in RectSrcPrelude.lean). Import-free apart from EG.Model.Raw.
+  Every definition is an `abbrev` (see the note in RectSrcPrelude.lean). Import-free apart from EG.Basic.Core (`EG.Pt`) and EG.Model.Raw.
 -/
+import EG.Basic.Core
 import EG.Model.Raw
 namespace EG.RawSrcPrelude
 open EG
@@ -143,6 +144,19 @@ abbrev mutslice_copy_from_slice (m : MutSlice) (src : List Nat) : List Nat := m.
 abbrev mutu8_read (r : MutU8) : Nat := r.val
 abbrev mutu8_write (r : MutU8) (v : Nat) : List Nat := r.put v
 
+/-! ### what src/framebuffer.rs needs in addition -/
+
+abbrev Point_x (p : EG.Pt) : Int := p.x
+abbrev Point_y (p : EG.Pt) : Int := p.y
+/-- `x as usize` on an `i32`: wraps modulo 2^64 (two's complement) -/
+abbrev i32_as_usize (x : Int) : Nat := (x % 18446744073709551616).toNat
+/-- `c.into()` for `C: PixelColor<Raw = X> + Into<X>`: a colour IS its raw value in these models (colour <-> raw: C12) -/
+abbrev color_into_raw (c : Nat) : Nat := c
+/-- `a[i] = v` on an array (panics outside: the equivalence theorems are about indices inside, `Fb.Wf`) -/
+abbrev array_index_assign (a : List Nat) (i v : Nat) : List Nat := a.set i v
+/-- `for x in xs { body }` with the loop state `self` -/
+abbrev for_loop {α σ : Type} (xs : List α) (s : σ) (f : σ → α → σ) : σ := xs.foldl f s
+
 /-! ### Option / Result -/
 
 inductive OutOfBoundsErrorTy where
@@ -153,6 +167,9 @@ abbrev OutOfBoundsError : OutOfBoundsErrorTy := .mk
 inductive Result (α : Type) where
   | ok : α → Result α
   | err : Result α
+
+/-- `usize::try_from(x)` for an `i32`: `Err` below zero (every non-negative `i32` fits) -/
+abbrev usize_try_from_i32 (x : Int) : Result Nat := if 0 ≤ x then .ok x.toNat else .err
 
 abbrev option_map {α β : Type} (o : Option α) (f : α → β) : Option β :=
   match o with
